@@ -6,3 +6,6 @@ const RaceEnabled = false
 
 func raceAcquire(p *uint64)      {}
 func raceReleaseMerge(p *uint64) {}
+
+func raceDisable() {}
+func raceEnable()  {}
